@@ -403,6 +403,9 @@ func (g *Gen) instr(in ssa.Instruction) {
 			_ = id
 		}
 		if obj := in.Object(); obj != nil {
+			if v, ok := obj.(*types.Var); !ok || v.IsField() {
+				return // only local variables and parameters are nameable in contracts
+			}
 			g.seq++
 			g.names[obj.Name()] = append(g.names[obj.Name()], nameRef{in.X, in.IsAddr, g.cur, g.seq})
 		}
